@@ -36,14 +36,16 @@ META = dict(
 
 ALL_OUT = list(d.OUTCOMES)
 PROBES = {
-    "P1": dict(ex="A", typ="fut", lev="l5", mode="iso", fee="f1", bal="b0", warm="w1", rt="r0", sim="step", hp="part", out="ok"),
-    "P2": dict(ex="A", typ="spot", lev="l1", mode="cross", fee="f1", bal="b1", warm="w0", rt="r1", sim="fast", hp="none", out="ok"),
+    "P1": dict(ex="A", typ="fut", lev="l5", mode="iso", fee="f1", bal="b0", warm="w1", rt="r0", sim="step", hp="part", gen="none", out="ok"),
+    "P2": dict(ex="A", typ="spot", lev="l1", mode="cross", fee="f1", bal="b1", warm="w0", rt="r1", sim="fast", hp="none", gen="equity", out="ok"),
 }
 SMALL = dict(Exs=["A", "B"], Typs=["spot", "fut"], Levs=["l1", "l5"], Modes=["cross", "iso"], Fees=["f0", "f1"],
-             Bals=["b0", "b1"], Warms=["w0", "w1"], Rts=["r0", "r1"], Sims=["step", "fast"], Hps=["none", "full", "part"])
+             Bals=["b0", "b1"], Warms=["w0", "w1"], Rts=["r0", "r1"], Sims=["step", "fast"], Hps=["none", "full", "part"],
+             Gens=["none", "logs", "equity"])
 WIDE = dict(Exs=["A", "B", "C"], Typs=["spot", "fut"], Levs=["l1", "l2", "l5"], Modes=["cross", "iso"],
             Fees=["f0", "f1", "f2"], Bals=["b0", "b1"], Warms=["w0", "w1", "w2"], Rts=["r0", "r1", "r2"],
-            Sims=["step", "fast"], Hps=["none", "full", "part"])
+            Sims=["step", "fast"], Hps=["none", "full", "part"],
+            Gens=["none", "logs", "equity", "hp", "json", "csv", "tv"])
 INVARIANTS = ["SeesDriver", "SeesType", "SeesLeverage", "SeesMode", "SeesFeeRate", "SeesFeeInTrades", "SeesBalance",
               "SeesWarmSize", "SeesWarmVisible", "SeesRoutes", "SeesFreshVars"]
 ACTIONS = ["EarlierCall", "ProbeCall", "SetConfig", "SetRoutes", "StoreResetAtStart", "InitStorage", "InjectWarmup",
@@ -69,11 +71,11 @@ def tla_set(xs):
 def cfg(probe, lattice, calls, flips, intended, export, invariants=()):
     p = probe
     lines = ["SPECIFICATION Spec", "VIEW View", "CHECK_DEADLOCK FALSE", "CONSTANTS"]
-    for k in ("Exs", "Typs", "Levs", "Modes", "Fees", "Bals", "Warms", "Rts", "Sims", "Hps"):
+    for k in ("Exs", "Typs", "Levs", "Modes", "Fees", "Bals", "Warms", "Rts", "Sims", "Hps", "Gens"):
         lines.append(" %s = %s" % (k, tla_set(lattice[k])))
     lines.append(" Outcomes = %s" % tla_set(ALL_OUT))
-    lines.append(' PEx = "%s" PTyp = "%s" PLev = "%s" PMode = "%s" PFee = "%s" PBal = "%s" PWarm = "%s" PRt = "%s" PSim = "%s" PHp = "%s"'
-                 % (p["ex"], p["typ"], p["lev"], p["mode"], p["fee"], p["bal"], p["warm"], p["rt"], p["sim"], p["hp"]))
+    lines.append(' PEx = "%s" PTyp = "%s" PLev = "%s" PMode = "%s" PFee = "%s" PBal = "%s" PWarm = "%s" PRt = "%s" PSim = "%s" PHp = "%s" PGen = "%s"'
+                 % (p["ex"], p["typ"], p["lev"], p["mode"], p["fee"], p["bal"], p["warm"], p["rt"], p["sim"], p["hp"], p["gen"]))
     t = "TRUE" if intended else "FALSE"
     lines.append(" MaxCalls = %d MaxFlips = %d" % (calls, flips))
     lines.append(" CacheInvalidated = %s DriversRebuilt = %s SharedVarsReset = %s Export = %s"
@@ -84,7 +86,7 @@ def cfg(probe, lattice, calls, flips, intended, export, invariants=()):
 
 def instances(ctx):
     """(probe id, lattice, calls, flips) - the histories of each instance are replayed into the code"""
-    q = [("P1", SMALL, 2, 1), ("P2", SMALL, 2, 1)]
+    q = [("P1", SMALL, 2, 1), ("P2", SMALL, 1, 2)]
     t = [("P1", SMALL, 3, 1), ("P2", SMALL, 3, 1), ("P1", WIDE, 2, 1), ("P2", SMALL, 2, 2)]
     return ctx.pick(q, t)
 
@@ -126,6 +128,12 @@ def enc_run(rec):
         shared=[[str(k), str(v)] for k, v in o.get("shared", [])],
         routes=[list(map(str, x)) for x in o.get("routes", [])], hp=[[str(k), str(v)] for k, v in o.get("hp", [])],
         first=[g("first_index"), g("first_time")], trade_fee_rates=rates,
+        debug=("on" if o.get("debug") else "off") if has else "missing",
+        strategy_state=["%s=%s" % (k, d.r(v) if not isinstance(v, list) else ",".join(map(str, v)))
+                        for k, v in sorted((o.get("state") or {}).items())],
+        strategy_metrics=["|".join(d.r(x) if not isinstance(x, list) else ",".join(map(str, x)) for x in row)
+                          for row in o.get("metrics_seen", [])],
+        result_items=[str(x) for x in rec.get("result_items", [])],
         args_before=[rec["args_before"][k] for k in d.ARG_NAMES], args_after=[rec["args_after"][k] for k in d.ARG_NAMES],
         orders=["|".join(str(x[k]) for k in ("sym", "side", "type", "qty", "price", "status", "ro", "created", "executed", "where"))
                 for x in orders],
@@ -220,7 +228,8 @@ def run(ctx):
             rec = json.loads(e[1])
             key = (pid, json.dumps(rec["hist"], sort_keys=True))
             if key not in exported:
-                exported[key] = dict(hist=rec["hist"], excs=rec["excs"], stale=sorted(rec["stale"]), label=label)
+                exported[key] = dict(hist=rec["hist"], excs=rec["excs"], stale=sorted(rec["stale"]), label=label,
+                                     debug=rec["seen"]["debug"])
     ctx.log("M: %d distinct histories exported; as-is model: %s" % (len(exported), model_classes))
     # ---------------- R: run every history + probe in a forked child; one fresh probe per probe id
     from ..session import run_isolated
@@ -244,7 +253,7 @@ def run(ctx):
         pid = k[0]
         e = exported[k]
         hdr = dict(probe=PROBES[pid], exp=expected(PROBES[pid]), hist=e["hist"], has_pred=True, pred_stale=e["stale"],
-                   pred_excs=e["excs"], relational=False)
+                   pred_excs=e["excs"], pred_debug=e["debug"], relational=False)
         traces.append(dict(id=i + 1, hdr=hdr, after=enc_run(rec), fresh_id=pid))
         meta[i + 1] = (pid, e)
         differs = [c for c in e["hist"] if any(c[x] != PROBES[pid][x] for x in d.DIMS) or c["out"] != "ok"]
@@ -296,7 +305,7 @@ def fork_equals_fresh_interpreter(ctx, items, recs):
     traces, fr = [], {}
     for i, (it, a, b) in enumerate(zip(items, recs, spawned)):
         hdr = dict(probe=it["probe"], exp=expected(it["probe"]), hist=[], has_pred=False, pred_stale=[], pred_excs=[],
-                   relational=True)
+                   pred_debug="off", relational=True)
         ea, eb = enc_run(a), enc_run(b)
         ea["hist_exc"], eb["hist_exc"] = [], []
         traces.append(dict(id=i + 1, hdr=hdr, after=ea, fresh_id="i%d" % i))
@@ -334,7 +343,7 @@ def judge(ctx, traces, meta, fresh):
             for c in freshv.split("|"):
                 ctx.violation("%s:fresh-process" % c, "probe %s in a fresh process does not see its own arguments: %s" % (pid, freshv),
                               {"hist": [], "probe_id": pid, "probe": PROBES.get(pid)})
-        if model in ("neither", "outcomes-differ") and len(ctx.notes) < 20:
+        if model in ("neither", "outcomes-differ", "debug-mode-differs") and len(ctx.notes) < 20:
             ctx.notes.append("model calibration: %s for history %s: flagged %s, as-is model predicts %s / outcomes %s" % (
                 model, json.dumps(e["hist"]), classes, e.get("stale"), e.get("excs")))
     ctx.coverage["conformance_to_model_variant"] = agree
@@ -354,7 +363,7 @@ def replay(ctx, rp):
     for rec in recs:
         if isinstance(rec, tuple):
             raise Machinery("child failed: %s" % (rec[1][:1500],))
-    hdr = dict(probe=probe, exp=expected(probe), hist=p["hist"], has_pred=False, pred_stale=[], pred_excs=[], relational=False)
+    hdr = dict(probe=probe, exp=expected(probe), hist=p["hist"], has_pred=False, pred_stale=[], pred_excs=[], pred_debug="off", relational=False)
     traces = [dict(id=1, hdr=hdr, after=enc_run(recs[1]), fresh_id="f")]
     v = judge(ctx, traces, {1: (p.get("probe_id", "replay"), {"hist": p["hist"], "probe": probe})}, {"f": enc_run(recs[0])})
     print("replay verdict:", v[1])
